@@ -25,6 +25,10 @@ def run(chk):
                                 steps=80 if q else 200, nvars_choices=[6],
                                 profile='decl', tag='decl')
     sh += hs
+    sh += common.stage_wide(chk, 'decl')
+    # a level beyond the next bottom level (known finding: accepted, the levels are then not 0..n-1)
+    sh += common.stage_histories(chk, ntraces=16, steps=0, nvars_choices=[6], nparts=1,
+                                 profile='decl_gap', tag='gap')
     chk.validate('TraceBDD', 'TraceBDD.cfg', sh)
 
     def lagging_view(tr):
